@@ -4,7 +4,6 @@ CONSTANTS
   K = 3
   Rounds = {0,1,2,3,4}
   Vals = {0,1}
-  MaxPos = 5
   MutInCursor = FALSE
   Depth = 0
   CoverOneIn = 4
